@@ -71,16 +71,20 @@ type c10 struct{}
 
 func init() { register(c10{}) }
 
-const c10Grid = 64
+const c10Grid = 68
+
+// c10Dial names the grid slots 64..67: no seam fault, the kernel-side connect of the SACK variant fails or
+// the handshake is useless (real loopback listener / policy route of the private namespace).
+var c10Dial = []string{"closed", "unreach", "noSynAck", "noPermitted"}
 
 func (c10) ID() string     { return "C10" }
 func (c10) Level() string  { return "fault_enumeration" }
 func (c10) QuickRuns() int { return c10Grid * 7200 }
 func (c10) Rule() string {
-	return "fault grid: for each seeded base run (every variant, 1-6 TTLs, seeded topology and timing) 64 slots are executed with one injected fault each: handle construction fails; 1st/2nd SetPacketFilter fails; k-th WriteTo fails (k=1..8); k-th Read fails fatally (k=1..20), returns a spurious deadline-exceeded (k=1..10) or zero bytes (k=1..10); k-th SetReadDeadline fails (k=1..8); plus 5 slots with 2-3 seeded faults. Run index i = base*64 + slot, so every slot of every base is covered systematically; non-trivial = the fault actually fired (k within the calls the run makes); distinct = distinct (variant, operation, k, class, base shape)"
+	return "fault grid: for each seeded base run (every variant, 1-6 TTLs, seeded topology and timing) 64 slots are executed with one injected fault each: handle construction fails; 1st/2nd SetPacketFilter fails; k-th WriteTo fails (k=1..8); k-th Read fails fatally (k=1..20), returns a spurious deadline-exceeded (k=1..10) or zero bytes (k=1..10); k-th SetReadDeadline fails (k=1..8); plus 5 slots with 2-3 seeded faults, plus 4 slots in which the SACK variant's real TCP connect fails or is useless (port closed, ENETUNREACH by policy route, SYN-ACK never captured, no SACK-permitted): an error, no result, handles closed exactly once. Run index i = base*64 + slot, so every slot of every base is covered systematically; non-trivial = the fault actually fired (k within the calls the run makes); distinct = distinct (variant, operation, k, class, base shape)"
 }
 func (c10) Assumptions() []string {
-	return []string{"faults are injected at the Source/Sink seam and at handle construction; the three real kernel calls (UDP connect, TCP listen, TCP connect) are not fault-injected", "a spurious deadline-exceeded or zero-length read may either fail the run or be skipped; anything else (partial path, success with a wrong path) is a violation"}
+	return []string{"faults are injected at the Source/Sink seam and at handle construction; of the three real kernel calls only TCP connect is made to fail (closed port, unreachable policy route); UDP connect and TCP listen are not fault-injected", "a spurious deadline-exceeded or zero-length read may either fail the run or be skipped; anything else (partial path, success with a wrong path) is a violation"}
 }
 
 func c10Fault(slot int, rng *rand.Rand) []sim.Fault {
@@ -121,6 +125,9 @@ func (c10) Gen(rng0 *rand.Rand, tier string, i int) *sim.Scenario {
 	rng := rand.New(rand.NewPCG(CurrentSeed^0xc10, uint64(base)+77)) // the base run depends on (seed, base) only, not on the slot
 	o := &wireOpts{variants: AllVariants, silentProb: 0.3, dupProb: 0.1, noDest: 0.3, wellTimed: true}
 	o.variants = []Variant{AllVariants[base%len(AllVariants)]}
+	if slot >= 64 {
+		o.variants = []Variant{{Entry: "sack", Loosen: base%2 == 1}}
+	}
 	wr := genWireRun(rng, o, 0, "c0")
 	if wr.call.MaxTTL-wr.call.MinTTL > 5 {
 		wr.call.MaxTTL = wr.call.MinTTL + 5
@@ -137,6 +144,22 @@ func (c10) Gen(rng0 *rand.Rand, tier string, i int) *sim.Scenario {
 			}
 			r.Dup = 0
 		}
+	}
+	if slot >= 64 {
+		switch c10Dial[slot-64] {
+		case "closed":
+			wr.lis.Closed = true
+		case "noSynAck":
+			wr.lis.NoSynAck = true
+		case "noPermitted":
+			wr.lis.Permitted = false
+		case "unreach":
+			wr.lis = nil
+			wr.call.Target = unreachTarget
+		}
+		sc := scenarioFor("C10", rng, []*wireRun{wr})
+		sc.Note = fmt.Sprintf("base=%d slot=%d dial=%s", base, slot, c10Dial[slot-64])
+		return sc
 	}
 	sc := scenarioFor("C10", rng, []*wireRun{wr})
 	sc.Faults = c10Fault(slot, rand.New(rand.NewPCG(uint64(i), 5)))
@@ -163,6 +186,20 @@ func (c10) Check(out *sim.Outcome, ri *RunInfo) []Violation {
 	ri.Shape = variant + "|" + strings.Join(fs, ",") + "|" + shapeOf(out.Sc)
 	fct := func(f sim.FiredFault) map[string]string {
 		return facts("variant", variant, "op", f.Op, "class", f.Class)
+	}
+	if dial := noteField(out.Sc.Note, "dial"); dial != "" {
+		// the connect failed (or the handshake was useless): an error, no result, everything closed
+		if len(out.W.Eps) > 0 {
+			ri.NonTrivial = true
+			ri.probe("cell:" + variant + "/dial/" + dial)
+		}
+		ri.Shape = variant + "|dial=" + dial + "|" + shapeOf(out.Sc)
+		if cs.Run != nil {
+			vs = append(vs, Violation{Rule: "C10.partial-result", Detail: fmt.Sprintf("SACK connect case %q: the call returned a path of %d hops (err=%v)", dial, len(cs.Run.Hops), cs.Err), Facts: facts("variant", variant, "op", "dial", "class", dial)})
+		} else if cs.Err == nil {
+			vs = append(vs, Violation{Rule: "C10.cause-lost", Detail: fmt.Sprintf("SACK connect case %q: the call returned (nil, nil)", dial), Facts: facts("variant", variant, "op", "dial", "class", dial)})
+		}
+		return append(vs, handleViolations(out, variant)...)
 	}
 	if cs.Run != nil && cs.Err != nil {
 		vs = append(vs, Violation{Rule: "C10.partial-result", Detail: fmt.Sprintf("call returned both a result (%d hops) and an error: %v", len(cs.Run.Hops), cs.Err), Facts: facts("variant", variant)})
@@ -442,6 +479,7 @@ var c20Caps = []string{"ok-ts", "ok", "noPermitted", "plainAck", "closed", "noSy
 // "cannot connect" that is not a refused connection) while the UDP connect used for local-address
 // discovery still works.
 const unreachTarget = "198.18.0.9"
+
 var c20Faults = []string{"none", "filter1", "filter2", "write1", "write2", "read1", "read3", "new"}
 
 func (c20) ID() string     { return "C20" }
